@@ -1105,6 +1105,11 @@ def _parse_cached(
             logger.debug(f"Model with hash '{txt_hash}' ({pymoca_version}) found in cache")
             last_hit, pickled_data = result
 
+            if not isinstance(last_hit, int):
+                # Only possible when the table was replaced by one with another layout
+                # after this process checked it. Have the database checked again.
+                raise sqlite3.DatabaseError("Unexpected type of last_hit in model text cache")
+
             yesterday = _microseconds_since_epoch(timedelta(days=-1))
 
             if always_update_last_hit or last_hit < yesterday:
